@@ -18,7 +18,9 @@
        compute_utilization_fingerprints (which events create a job fingerprint), compute_utilization
      stats.py
        calculate_stats: the 'PT Active' counter rule (helper counter with "dur": dropped when its value is
-       (close to) zero, otherwise "dur" popped) and the assertion dur > 0 on 'Cmpt Exec' slices
+       (close to) zero, otherwise "dur" popped) and the assertion dur > 0 on 'Cmpt Exec' slices; without
+       that stage (-t, stats_enabled = False, fix dbd55f3) make_utilization_event itself leaves out the
+       helper "dur" and the zero-valued counter
      tools.py
        PipelineContextTool.is_acc_event / is_acc_kernel for the FLEX dialect (has args.TS1, name ends in
        'Cmpt Exec')
@@ -231,26 +233,30 @@ Inductive oev : Type :=
                                                         cat goes to event.cat, or args.user_cat if cat was present *)
 | OCnt (pid : Z) (ts : Q) (v : Q) (dur : option Q).  (* 'PT Active' counter, args.Percent = v; helper "dur" *)
 
-(* make_utilization_event *)
-Definition counters (e : uev) (v : Q) : list oev :=
-  OCnt (u_pid e) (u_ts e) v (Some (u_dur e)) ::
-  (if Qlt_b 0 v then [OCnt (u_pid e) (u_ts e + u_dur e) 0 None] else []).
+(* make_utilization_event.  [stats] = MultiRCUUtilizationContext.stats_enabled (= not -t): the helper "dur"
+   and the zero-valued helper counter are produced only for calculate_stats, which consumes them *)
+Definition counters (stats : bool) (e : uev) (v : Q) : list oev :=
+  if stats then
+    OCnt (u_pid e) (u_ts e) v (Some (u_dur e)) ::
+    (if Qlt_b 0 v then [OCnt (u_pid e) (u_ts e + u_dur e) 0 None] else [])
+  else if Qlt_b 0 v then [OCnt (u_pid e) (u_ts e) v None; OCnt (u_pid e) (u_ts e + u_dur e) 0 None]
+  else [].
 
 (* compute_utilization on one event *)
-Definition step2 (core : Q) (t : tbl) (st : cats) (e : uev) : cats * list oev :=
+Definition step2 (stats : bool) (core : Q) (t : tbl) (st : cats) (e : uev) : cats * list oev :=
   if is_kernel e then
     let k := kernel_name e in
     let ideal := ideal_dur core (get_cycles t k) in
     let u := util ideal (u_dur e) in
     (accumulate t st (u_pid e) k ideal (u_dur e),
-     OKern e (if Qlt_b 0 u then Some u else None) (cat_of t k) :: counters e (u * 100))
+     OKern e (if Qlt_b 0 u then Some u else None) (cat_of t k) :: counters stats e (u * 100))
   else (st, [OPass e]).
 
-Fixpoint phase2 (core : Q) (t : tbl) (st : cats) (es : list uev) : cats * list oev :=
+Fixpoint phase2 (stats : bool) (core : Q) (t : tbl) (st : cats) (es : list uev) : cats * list oev :=
   match es with
   | [] => (st, [])
-  | e :: r => let '(st1, o1) := step2 core t st e in
-              let '(st2, o2) := phase2 core t st1 r in (st2, o1 ++ o2)
+  | e :: r => let '(st1, o1) := step2 stats core t st e in
+              let '(st2, o2) := phase2 stats core t st1 r in (st2, o1 ++ o2)
   end.
 
 (* calculate_stats, counter rule *)
@@ -324,7 +330,7 @@ Inductive outcome : Type :=
 Definition run_tbl (c : cfg) (t : tbl) (es : list uev) : outcome :=
   (* update_fprint_matches only re-labels the jobs' fingerprints: with ONE table every job gets that
      table, whatever the similarity value (since fix 27f6713 also for a table whose cycles are all zero) *)
-  let '(st, o2) := phase2 (c_core c) t [] es in
+  let '(st, o2) := phase2 (c_stats c) (c_core c) t [] es in
   if c_stats c && existsb stats_asserts o2 then Err "AssertionError" else
   let o3 := if c_stats c then flat_map stats_rule o2 else o2 in
   Ok t o3 st (match st with [] => None | _ => Some (csv_rows (c_core c) (t_phase t) st) end).
@@ -447,6 +453,39 @@ Definition run_check (x : (cfg * list item * list uev) * val) : val :=
   VB (close_val 0 (run_val (fst x)) (snd x)).
 Definition run_check_tol (x : (cfg * list item * list uev) * val) : val :=
   VB (close_val (1 # 1000000000) (run_val (fst x)) (snd x)).
+
+(* ------------------------------------------------------------------ end-to-end view (exported json + csv) *)
+(* what is visible in the final files: per kernel slice (pid, ts, dur, pt_active, core used) in stream
+   order, the multiset of 'PT Active' counters (sorted by pid, ts, value), the csv.  The category of a
+   slice is overwritten later by tb_refinement_lightweight (cat := "kernel"), so it shows only in the csv. *)
+Definition cnt_leb (a b : Z * Q * Q) : bool :=
+  let '(p1, t1, v1) := a in
+  let '(p2, t2, v2) := b in
+  (p1 <? p2)%Z ||
+  ((p1 =? p2)%Z && (Qlt_b t1 t2 || (Qeq_bool t1 t2 && Qle_bool v1 v2))).
+
+Definition e2e_val (x : cfg * list item * list uev) : val :=
+  let '(c, its, es) := x in
+  match run c its es with
+  | Err tag => VE tag
+  | Ok t evs st csv =>
+      VL [VL (flat_map (fun o => match o with
+                                 | OKern e pt _ =>
+                                     [VL [VZ (u_pid e); VQ (u_ts e); VQ (u_dur e); Vopt Vapprox pt;
+                                          match pt with Some _ => VB true | None => VN end]]
+                                 | _ => []
+                                 end) evs);
+          VL (map (fun x => let '(p, ts, v) := x in VL [VZ p; VQ ts; Vapprox v])
+                  (isort cnt_leb (flat_map (fun o => match o with
+                                                     | OCnt p ts v _ => [(p, ts, v)]
+                                                     | _ => []
+                                                     end) evs)));
+          Vopt (fun rs => VL (map crow_val rs)) csv]
+  end.
+Definition e2e_check (x : (cfg * list item * list uev) * val) : val :=
+  VB (close_val 0 (e2e_val (fst x)) (snd x)).
+Definition parse_check (x : (Q * list item) * val) : val :=
+  VB (close_val 0 (parse_val (fst x)) (snd x)).
 
 (* which of the four components (table, events, categories, csv) agree: diagnostics for a mismatch *)
 Definition run_diff (x : (cfg * list item * list uev) * val) : val :=
